@@ -42,7 +42,8 @@ Definition result_of_tree (t : tree) : outcome lres :=
   | C _ _ (P Universal 10 code :: P _ _ m :: P _ _ d :: rest) =>
       (* repair F28: a result code of more than 8 octets, or one that does not fit 32 bits, is malformed - it is not truncated (as found:
          [rc_as_found] below; a refusal with code 2^32 read as success) *)
-      if (Nat.leb (length code) 8) && (parse_uint code <? 2^32) then
+      (* repair F51: ... and a result code without content octets is no result code (as found it read as 0, success) *)
+      if negb (match code with [] => true | _ => false end) && (Nat.leb (length code) 8) && (parse_uint code <? 2^32) then
       if Utf8.valid m then if Utf8.valid d then
         comps rest {| rc := parse_uint code; matched := m; text := d; refs := [];
                       exop_name := None; exop_val := None; sasl := None |}
@@ -59,8 +60,12 @@ Definition spec_response (app_id : N) (code : bytes) (r : lres) : tree :=
 
 Definition rc_as_found (code : bytes) : N := parse_uint code mod 2^32.
 Lemma c03_refuted_F28 : rc_as_found [x01; x00; x00; x00; x00] = 0. Proof. reflexivity. Qed.
+(* F51: an ENUMERATED without content octets (0a 00) read as code 0 - a StartTLS "response" of that shape as success; now malformed *)
+Lemma c03_refuted_F51 : rc_as_found [] = 0 /\ result_of_tree (C Application 24 [P Universal 10 []; P Universal 4 []; P Universal 4 []]) = Panic /\
+  result_of_tree (C Application 24 [P Universal 10 [x00]; P Universal 4 []; P Universal 4 []]) <> Panic.
+Proof. vm_compute. repeat split. discriminate. Qed.
 Definition wf_res (code : bytes) (r : lres) : Prop :=
-  (length code <= 8)%nat /\ parse_uint code = rc r /\ rc r < 2^32 /\ Utf8.valid (matched r) = true /\ Utf8.valid (text r) = true /\
+  code <> [] /\ (length code <= 8)%nat /\ parse_uint code = rc r /\ rc r < 2^32 /\ Utf8.valid (matched r) = true /\ Utf8.valid (text r) = true /\
   Forall (fun u => Utf8.valid u = true) (refs r) /\ (match exop_name r with Some n => Utf8.valid n = true | None => True end).
 
 Lemma parse_refs_oct l : Forall (fun u => Utf8.valid u = true) l -> parse_refs_l (map oct l) = Ok l.
@@ -83,8 +88,9 @@ Proof. reflexivity. Qed.
 
 Theorem c03_result_of_spec app_id code r : wf_res code r -> result_of_tree (spec_response app_id code r) = Ok r.
 Proof.
-  intros (Hlen & Hc & Hlt & Hm & Ht & Hr & Hn). destruct r as [c m t rs en ev sa]. cbn [rc matched text refs exop_name exop_val sasl] in *.
+  intros (Hne & Hlen & Hc & Hlt & Hm & Ht & Hr & Hn). destruct r as [c m t rs en ev sa]. cbn [rc matched text refs exop_name exop_val sasl] in *.
   unfold result_of_tree, spec_response. cbn [app matched text refs sasl exop_name exop_val]. unfold oct at 1 2. cbn beta iota.
+  destruct code as [|c0 code']; [congruence|]. cbn [negb].
   rewrite (proj2 (Nat.leb_le _ _) Hlen), Hc, (proj2 (N.ltb_lt _ _) Hlt). cbn [andb]. rewrite Hm, Ht.
   destruct rs as [|u us]; cbn beta iota; cbn [app].
   2: rewrite comps_refs by exact Hr; unfold set_refs.
